@@ -186,6 +186,13 @@ theorem newSpan_okp {s : System} {a b : Version} (ha : VK s a) (hb : VK s b) (ao
 theorem newSpan_spok {s : System} {a b : Version} (ha : VK s a) (hb : VK s b) (ao bo : Bool) :
     OKP (SpOK s) (newSpan a ao b bo) := okp_mono (newSpan_okp ha hb ao bo) (fun _ h => h.1)
 
+/-- The aliased call `newSpan(min, false, min, false)` of `setRange`. -/
+theorem newSpanAliased_spok {s : System} {a : Version} (ha : VK s a) : OKP (SpOK s) (newSpanAliased a) := by
+  unfold newSpanAliased
+  split
+  · exact newSpan_spok ha ha false false
+  · exact newSpan_spok (vk_setTail ha _ _) (vk_setTail ha _ _) false false
+
 /-! ## `opVersionToSpan`, restated with its closures and `switch` cases named -/
 
 /-- The `fin` closure of `opVersionToSpan`. -/
